@@ -6,6 +6,7 @@
 (*  {"ev":"fft-basis","n","i","out"}: out[k+1] = psi_n^((2 brv(k)+1) i) with psi_n = Psi^(1024/n)          *)
 (*      (the evaluation map; Psi = 1331^2... is fixed below as the value the table event must report).  *)
 (*  {"ev":"fft","n","a","out"}: out = NttFwd(a) with the specification's own table for psi_n.            *)
+(*  {"ev":"ifft","n","a","out"}: NttFwd(out) = a (the inverse transform on structured evaluation vectors).  *)
 (*  {"ev":"roundtrip","n","a","out"}: out = a.   {"ev":"mul","n","a","b","out"}: out = a*b schoolbook.   *)
 (* The root used by the code is read from the tables event of the same trace file shard 0; every      *)
 (* other shard uses PsiCode below, which the tables event is also checked against.                    *)
@@ -37,6 +38,11 @@ Judge(e) ==
     LET n == e.n  tab == SpecTable(FQ, PsiN(n), n)
         ok == e.out = NttFwd(e.a, tab, FQ)
     IN [ok |-> ok, branch |-> "fft-n" \o ToString(n), detail |-> <<>>]
+  ELSE IF e.ev = "ifft" THEN
+    \* the inverse transform applied directly to an evaluation vector a: the forward transform of the answer must be a
+    LET n == e.n  tab == SpecTable(FQ, PsiN(n), n)
+        ok == Len(e.out) = n /\ (\A i \in 1..n : e.out[i] >= 0 /\ e.out[i] < FQ) /\ NttFwd(e.out, tab, FQ) = e.a
+    IN [ok |-> ok, branch |-> "ifft-n" \o ToString(n), detail |-> <<>>]
   ELSE IF e.ev = "roundtrip" THEN
     [ok |-> e.out = e.a, branch |-> "roundtrip-n" \o ToString(e.n), detail |-> <<>>]
   ELSE
